@@ -17,12 +17,12 @@ TARGETS = ['valjean.cosette.use:Use.from_func', 'valjean.cosette.use:Use.__init_
            'valjean.cosette.use:Use.map', 'valjean.cosette.use:using', 'valjean.cosette.use:UseRun.__call__',
            'valjean.cosette.run:RunTaskFactory.make', 'valjean.cosette.run:RunTaskFactory.copy',
            'valjean.cosette.run:RunTaskFactory.from_executable', 'valjean.cosette.run:RunTaskFactory.from_task',
-           'valjean.cosette.task:close_dependency_graph', 'valjean.cambronne.common:check_unique_task_names']
+           'valjean.cosette.task:close_dependency_graph', 'valjean.cambronne.common:check_unique_task_names', 'valjean.cambronne.common:collect_tasks']
 BOUNDS = {'quick': {'use': 'histories of 2 requests: function in {f, another function also named f, h}, injected task in {T1,T2}, key in '
                            "{'result','other'}, positional/keyword, hard/soft; caches start empty",
                     'factory': 'histories of 3 make() calls on one factory (and a copy): extra_args in 2 values, deps/soft_deps in {none, [D]}, name none',
                     'stacked wrappers': 'a wrapper specialised 2 times (parent: base or an earlier specialisation; task, key, positional/keyword x/y solver-chosen)',
-                    'factories differing in default keywords': '2 make() calls on two sibling factories (v=v1 / v=v2), call-time override none/v1/v2, 2 extra_args; + a wrapper task on each',
+                    'factories differing in default keywords': '2 make() calls on two sibling factories (same executable with v=v1 / v=v2, or two executables of one build task), call-time override none/v1/v2, 2 extra_args; + a wrapper task on each',
                     'closure': 'all hard/soft/none graphs on <= 3 tasks'},
           'thorough': {'use': 'histories of 3 requests', 'stacked wrappers': '3 specialisations', 'factories differing in default keywords': '3 make() calls', 'factory': 'histories of 4 make() calls', 'closure': 'all graphs on <= 4 tasks'}}
 ASSUMPTIONS = ['requests are drawn from the finite alphabets listed in the bounds (solver-chosen sequences)',
@@ -254,8 +254,23 @@ def make_factory_kw_harness(n):
         from valjean.cosette.use import Use
         from valjean.cosette.task import TaskStatus
         from valjean.cosette.env import Env
-        facs = [runmod.RunTaskFactory.from_executable('/bin/exe', default_args=['--opt', '{v}'], v='v1'),
-                runmod.RunTaskFactory.from_executable('/bin/exe', default_args=['--opt', '{v}'], v='v2')]
+        from valjean.cosette.task import Task
+
+        class Plain(Task):
+            def do(self, env, config):
+                return {}, TaskStatus.DONE
+        build = Plain('BUILD')
+        if ex.flag('factories-made-from-a-build-task'):
+            # two executables of the same build task (different relative paths), same default keyword
+            exes = ['/out/bin/tool_v1', '/out/bin/tool_v2']
+            facs = [runmod.RunTaskFactory.from_task(build, relative_path='bin/tool_v1', default_args=['--opt', '{v}'], v='v1'),
+                    runmod.RunTaskFactory.from_task(build, relative_path='bin/tool_v2', default_args=['--opt', '{v}'], v='v1')]
+            defaults = ['v1', 'v1']
+        else:
+            exes = ['/bin/exe', '/bin/exe']
+            facs = [runmod.RunTaskFactory.from_executable('/bin/exe', default_args=['--opt', '{v}'], v='v1'),
+                    runmod.RunTaskFactory.from_executable('/bin/exe', default_args=['--opt', '{v}'], v='v2')]
+            defaults = ['v1', 'v2']
         reqs, tasks = [], []
         for r in range(n):
             which = ex.choice(2, f'factory{r}')
@@ -265,7 +280,7 @@ def make_factory_kw_harness(n):
             tasks.append(facs[which].make(extra_args=[['a'], ['b']][xa], **kw))
             reqs.append((which, callv, xa))
         ex.note('requests', reqs)
-        eff = [(callv or ['v1', 'v2'][which], xa) for which, callv, xa in reqs]
+        eff = [(exes[which], callv or defaults[which], xa) for which, callv, xa in reqs]
         calls = []
 
         def call_stub(cli, **kw):
@@ -298,9 +313,9 @@ def make_factory_kw_harness(n):
                              detail=f'{tasks[a].name} / {tasks[b].name}')
             for r in range(n):
                 del calls[:]
-                upd, st = tasks[r].do(Env(), _Cfg(tmp))
-                ex.check(calls == [['/bin/exe', '--opt', eff[r][0]] + [['a'], ['b']][eff[r][1]]] and st == TaskStatus.DONE,
-                         'factory-kw:task-runs-the-requested-command-line')
+                upd, st = tasks[r].do(Env({'BUILD': {'output_dir': '/out'}}), _Cfg(tmp))
+                ex.check(calls == [[eff[r][0], '--opt', eff[r][1]] + [['a'], ['b']][eff[r][2]]] and st == TaskStatus.DONE,
+                         'factory-kw:task-runs-the-requested-command-line', detail=str(calls))
         finally:
             runmod.call = saved
             Use._CACHE.clear()
@@ -352,6 +367,26 @@ def make_closure_harness(n):
         except ValueError:
             raised = True
         ex.check(raised == want_dup, 'closure:duplicate-names-of-different-tasks-are-rejected')
+        # the same through collect_tasks (what `valjean run` calls), the job() function being a stub that returns the roots
+        # (the first root possibly listed twice: the same task OBJECT twice is not a name clash)
+        import valjean.cambronne.common as common
+        job_tasks = [ts[i] for i in roots]
+        if roots and ex.flag('first-root-listed-twice'):
+            job_tasks.append(ts[roots[0]])
+        saved = common.run_job
+        common.run_job = lambda job_file, job_args, job_kwargs: list(job_tasks)
+        try:
+            try:
+                coll = common.collect_tasks('job.py', [], {})
+                raised2 = False
+            except ValueError:
+                coll, raised2 = None, True
+        finally:
+            common.run_job = saved
+        ex.check(raised2 == want_dup, 'collect_tasks:rejects-exactly-the-jobs-with-two-different-tasks-of-the-same-name')
+        if coll is not None:
+            ex.check(len(coll) == len(reach) and {id(t) for t in coll} == {id(ts[i]) for i in reach},
+                     'collect_tasks:every-transitive-hard-and-soft-dependency-exactly-once')
     return harness
 
 
